@@ -3,6 +3,7 @@
 package rules
 
 import (
+	"sync"
 	"fmt"
 	"go/ast"
 	"go/token"
@@ -152,6 +153,11 @@ func unparen(e ast.Expr) ast.Expr {
 func identVar(e ast.Expr, fr *core.Frame) *types.Var {
 	id, ok := unparen(e).(*ast.Ident)
 	if !ok || fr == nil {
+		if fr != nil {
+			// x.f where x is a local struct VALUE: a local variable in all but syntax (locals grouped
+			// into a small struct)
+			return localFieldVar(e, fr)
+		}
 		return nil
 	}
 	info := fr.Info()
@@ -160,6 +166,103 @@ func identVar(e ast.Expr, fr *core.Frame) *types.Var {
 		o = info.Defs[id]
 	}
 	v, _ := o.(*types.Var)
+	return v
+}
+
+// ---- fields of local struct values as virtual locals ---------------------------------------------
+
+type synthKey struct{ base, field *types.Var }
+
+var (
+	synthMu   sync.Mutex
+	synthVars = map[synthKey]*types.Var{}
+	synthInfo = map[*types.Var]synthKey{}
+)
+
+// localFieldVar: for x.f with x a function-local (or parameter) variable of struct type — a value,
+// not a pointer — returns the virtual local standing for that field of that variable.
+func localFieldVar(e ast.Expr, fr *core.Frame) *types.Var {
+	sel, ok := unparen(e).(*ast.SelectorExpr)
+	if !ok {
+		return nil
+	}
+	id, ok := unparen(sel.X).(*ast.Ident)
+	if !ok {
+		return nil
+	}
+	info := fr.Info()
+	o := info.Uses[id]
+	if o == nil {
+		o = info.Defs[id]
+	}
+	base, _ := o.(*types.Var)
+	if base == nil || base.IsField() || base.Pkg() == nil || base.Parent() == base.Pkg().Scope() {
+		return nil
+	}
+	if _, isStruct := base.Type().Underlying().(*types.Struct); !isStruct {
+		return nil
+	}
+	s, ok := info.Selections[sel]
+	if !ok || s.Kind() != types.FieldVal || len(s.Index()) != 1 {
+		return nil
+	}
+	fv, _ := s.Obj().(*types.Var)
+	if fv == nil || core.LockKindOf(fv.Type()) != core.NotLock {
+		return nil
+	}
+	return virtualLocal(base, fv.Origin())
+}
+
+func virtualLocal(base, field *types.Var) *types.Var {
+	synthMu.Lock()
+	defer synthMu.Unlock()
+	k := synthKey{base, field}
+	if v, ok := synthVars[k]; ok {
+		return v
+	}
+	v := types.NewVar(base.Pos(), base.Pkg(), base.Name()+"."+field.Name(), field.Type())
+	synthVars[k] = v
+	synthInfo[v] = k
+	return v
+}
+
+// baseVar is the declared variable a (possibly virtual) local belongs to.
+func baseVar(v *types.Var) *types.Var {
+	synthMu.Lock()
+	defer synthMu.Unlock()
+	if k, ok := synthInfo[v]; ok {
+		return k.base
+	}
+	return v
+}
+
+func virtualField(v *types.Var) *types.Var {
+	synthMu.Lock()
+	defer synthMu.Unlock()
+	if k, ok := synthInfo[v]; ok {
+		return k.field
+	}
+	return nil
+}
+
+// accessVar: the variable an access event is about — a field of a local struct value counts as a
+// (virtual) local.
+func accessVar(ev *core.Event) *types.Var {
+	v := ev.Var
+	if v != nil && v.IsField() && ev.Base != nil {
+		if id, ok := unparen(ev.Base).(*ast.Ident); ok {
+			info := ev.Frame.Info()
+			o := info.Uses[id]
+			if o == nil {
+				o = info.Defs[id]
+			}
+			if base, _ := o.(*types.Var); base != nil && !base.IsField() && base.Pkg() != nil && base.Parent() != base.Pkg().Scope() {
+				if _, isStruct := base.Type().Underlying().(*types.Struct); isStruct && core.LockKindOf(v.Type()) == core.NotLock {
+					return virtualLocal(base, v.Origin())
+				}
+			}
+		}
+	}
 	return v
 }
 
@@ -349,6 +452,9 @@ func (c *Ctx) Role(v *types.Var) string {
 		roles[v] = s
 		names[s] = v.Name()
 		return s
+	}
+	if f := virtualField(v); f != nil {
+		return set(c.Role(baseVar(v)) + "." + f.Name())
 	}
 	d := c.Prog.EnclosingDecl(v.Pos())
 	if d == nil {
